@@ -252,7 +252,10 @@ class FuncView:
                         c = self.tables_of(a)
                         if c and any(not lvl for _, _, lvl in c) and not (isinstance(n.func, ast.Name) and n.func.id in ("len", "list", "set", "sorted", "tuple", "dict", "iter", "enumerate", "zip", "print", "str", "repr", "isinstance", "id", "bool", "any", "all", "sum", "min", "max", "frozenset", "reversed")):
                             callee_known = bool(self.ctx.callees(self.fi, n))
-                            if not callee_known or not isinstance(n.func, ast.Attribute):
+                            # (`self._helper(self._adj)` is followed as a method of the same object; `_tables.forget_node(self._adj, ...)`
+                            # - a function of another module that is handed the table - is not)
+                            own_method = isinstance(n.func, ast.Attribute) and isinstance(n.func.value, ast.Name) and n.func.value.id == "self"
+                            if not callee_known or not own_method:
                                 return True
             if isinstance(n, ast.Attribute) and isinstance(n.ctx, ast.Load) and isinstance(n.value, ast.Name) and n.value.id == "self" and self.fi.cls is not None and n.attr in getattr(self.fi.cls, "methods", {}):
                 par = self.parent.get(id(n))
